@@ -64,7 +64,7 @@ func runC16(op string) string {
 		}
 		syms = append(syms, s)
 	}
-	fx := newG3Fixture(p, role, g3FixOpts{})
+	fx := newG3Fixture(p, role, g3FixOpts{slowTimers: true})
 	defer fx.close()
 	// wait for the initial state to be set
 	if !fx.waitFor(g3Deadline, func(ev []g3Event, _ []uint8) bool {
